@@ -293,12 +293,13 @@ Section Rescan.
     separates_identifiers = true ->
     text_eqb s t_empty_literal = false ->
     parse1 s = Some e -> mt ctxmap raw_dates e = Some t -> scan_lits t = true ->
+    too_long ctxmap raw_dates (max_migrated_length s) e = false ->
     SP.nulfree (print3 t ++ f) ->
     let out := fst (migrate_seg ctxmap raw_dates false false printable isln lower_rune (SExpr s) f) in
     pscan (out ++ f) = (S.IDENTIFIER, print3 t, f) \/ pscan (out ++ f) = (S.EXPRESSION, print3 t, f).
   Proof.
-    intros s e t f Hflag Hne Hp Hm Hs Hnul. cbn zeta.
-    unfold migrate_seg, migrate_expression. rewrite Hne, Hp, (mt_no_errs ctxmap raw_dates e t Hm).
+    intros s e t f Hflag Hne Hp Hm Hs Hcap Hnul. cbn zeta.
+    unfold migrate_seg, migrate_expression. rewrite Hne, Hp, (mt_no_errs ctxmap raw_dates e t Hm), Hcap. cbn [orb].
     destruct (visit_mt ctxmap raw_dates e t Hm) as [Pv [W L]]. rewrite Pv. cbn [fst]. unfold wrap_raw.
     pose proof (closed_print3 t L Hs) as Hclosed.
     destruct (is_valid_identifier (print3 t)) eqn:Ev.
@@ -358,7 +359,10 @@ Definition hyp_seg2 (ctx : text -> text) (raw_dates : bool) (s : seg) : bool :=
   | SExpr t =>
       if text_eqb t t_empty_literal then true
       else match parse1 t with
-           | Some e => match mt ctx raw_dates e with Some tr => scan_lits tr | None => false end
+           | Some e => match mt ctx raw_dates e with
+                       | Some tr => scan_lits tr && negb (too_long ctx raw_dates (max_migrated_length t) e)
+                       | None => false
+                       end
            | None => false
            end
   | _ => hyp_seg ctx raw_dates s
